@@ -3,7 +3,7 @@
    plugin/proxy/proxy.go ([fixed]); the tree as pinned ([pinned]) is refuted below. *)
 From Coq Require Import Strings.String Strings.Byte.
 From Coq Require Import List Arith NArith ZArith Bool Lia.
-From Verif Require Import Base.Bytes Model.Proxy Proofs.ProxyProofs.
+From Verif Require Import Base.Bytes Model.Proxy Proofs.ProxyProofs Proofs.ProxyRedialProofs.
 Import ListNotations.
 
 (* For every backend (any routes, any handlers that do not read the X-Real-IP entries
@@ -185,3 +185,119 @@ Example C19_failure_example :
   failed (FDuring (SShared idx_conn_closed)) = Some (SShared idx_conn_closed) /\
   conn_class (deref initial_heap (SShared idx_conn_closed)) = true.
 Proof. split; reflexivity. Qed.
+
+(* ---- the forwarder is a client session that may redial (PeerConfig.RedialTimes != 0, as in
+   examples/proxy_and_seq): [client] = redial function present or not + connection up or
+   not, [fault] = where the backend connection is cut relative to the forwarded request
+   (not at all / before the write / between write()'s status test and the bytes / after the
+   backend read the request and before the reply / after the reply), whether the backend can
+   be dialled again, and the status object the failed call carries.  [client_call false] is
+   session.Call as it is: ONE AsyncCall, whose refused write (nothing sent) is repeated after
+   a redial. ---- *)
+
+(* Whatever the session, the cut and the redial outcome, a proxied call or push reaches the
+   backend at most once, its handler runs at most once, the forwarder is used at most once. *)
+Theorem C19_redial_forwarded_at_most_once :
+  forall v h px fw be caller proxy_addr cl ft rq,
+  (let p := proxied_call_client v false h px fw be caller proxy_addr cl ft rq in
+   px_arrived p <= 1 /\ length (px_seen p) <= 1 /\ length (px_forwards p) <= 1) /\
+  (let p := proxied_push_client v h px fw be caller proxy_addr cl ft rq in
+   px_arrived p <= 1 /\ length (px_seen p) <= 1 /\ length (px_forwards p) <= 1).
+Proof. exact redial_at_most_once_both. Qed.
+Print Assumptions C19_redial_forwarded_at_most_once.
+
+(* The second hop through such a session is one of the three cases of [failure]: everything the
+   theorems above say about FNone / FBefore / FDuring holds for it. *)
+Theorem C19_redial_is_a_failure_phase :
+  forall v h px fw be caller proxy_addr cl ft rq,
+  proxied_call_client v false h px fw be caller proxy_addr cl ft rq
+  = proxied_call v h px fw be caller proxy_addr (fault_failure cl ft) rq.
+Proof. exact proxied_call_client_refines. Qed.
+Print Assumptions C19_redial_is_a_failure_phase.
+
+(* The status law: when the request was written to a live connection (possibly after a
+   redial) and the reply came back, the proxied call is the fault-free one (hence equal to the
+   direct call by C19_proxied_equals_direct); otherwise the caller gets Bad Gateway with the
+   failure's cause, no body, and the request reached the backend once (cut after the backend
+   read it) or not at all.  Nothing else is possible. *)
+Theorem C19_redial_status_is_direct_or_bad_gateway :
+  forall h px fw be caller proxy_addr cl ft rq,
+  p_call px (rq_method rq) = None -> conn_class (deref h (ft_stat ft)) = true ->
+  let p := proxied_call_client fixed false h px fw be caller proxy_addr cl ft rq in
+  if delivered cl ft
+  then p = proxied_call fixed h px fw be caller proxy_addr FNone rq
+  else px_reply p = mkReply (Some (mkStatus 502 text_bad_gateway (st_cause (deref h (ft_stat ft))))) [] 0 [] /\
+       px_heap p = h /\ length (px_forwards p) = 1 /\
+       px_arrived p = (if writable cl ft then match ft_cut ft with CDuring => 1 | _ => 0 end else 0).
+Proof. exact redial_status_law_lemma. Qed.
+Print Assumptions C19_redial_status_is_direct_or_bad_gateway.
+
+Theorem C19_redial_delivered_iff :
+  forall cl ft,
+  delivered cl ft =
+  writable cl ft &&
+  match ft_cut ft with
+  | CDuring => false
+  | CAtWrite => negb (link_at_write cl ft)
+  | _ => true
+  end.
+Proof. exact delivered_spec. Qed.
+Print Assumptions C19_redial_delivered_iff.
+
+(* On that call only: with a redial-enabled session and the backend reachable, whatever cut hit
+   one operation, the next fault-free proxied call is the plain one. *)
+Theorem C19_redial_next_call_is_plain :
+  forall h px fw be caller proxy_addr cl ft ft2 rq,
+  cl_redial cl = true -> ft_reach ft = true -> ft_cut ft2 = CNone ->
+  proxied_call_client fixed false h px fw be caller proxy_addr
+    (mkClient (cl_redial cl) (link_after cl ft)) ft2 rq
+  = proxied_call fixed h px fw be caller proxy_addr FNone rq.
+Proof. exact next_call_is_plain_lemma. Qed.
+Print Assumptions C19_redial_next_call_is_plain.
+
+(* All histories of proxied calls and pushes over one forwarder session, each with its own
+   fault: every operation is forwarded at most once and no shared status object changes. *)
+Theorem C19_redial_histories_at_most_once :
+  forall ops h cl,
+  fst (fst (run_cops fixed false (h, cl) ops)) = h /\
+  Forall (fun p => px_arrived p <= 1 /\ length (px_seen p) <= 1 /\ length (px_forwards p) <= 1)
+         (snd (run_cops fixed false (h, cl) ops)).
+Proof. exact run_cops_at_most_once. Qed.
+Print Assumptions C19_redial_histories_at_most_once.
+
+(* session.Call issuing the call AGAIN after it completed with CodeConnClosed (the literal
+   reading of "automatically re-called once after a failure") breaks both clauses: the cut
+   after the backend read the request makes the request reach the backend handler twice and
+   the caller gets OK instead of Bad Gateway. *)
+Theorem C19_reissuing_call_refuted :
+  exists px fw be caller proxy_addr cl ft rq,
+    p_call px (rq_method rq) = None /\ conn_class (deref initial_heap (ft_stat ft)) = true /\
+    delivered cl ft = false /\
+    (let p := proxied_call_client fixed false initial_heap px fw be caller proxy_addr cl ft rq in
+     px_arrived p = 1 /\ length (px_seen p) = 1 /\
+     rp_stat (px_reply p) = Some (mkStatus 502 text_bad_gateway (Some []))) /\
+    (let p := proxied_call_client fixed true initial_heap px fw be caller proxy_addr cl ft rq in
+     px_arrived p = 2 /\ length (px_seen p) = 2 /\
+     px_reply p = mkReply None (str "hi") 115 []).
+Proof. exact reissuing_call_refuted_lemma. Qed.
+Print Assumptions C19_reissuing_call_refuted.
+
+(* ... and only when the redial succeeds: with the backend not reachable the second issue is
+   refused, the same requests reach the backend as without it. *)
+Theorem C19_reissue_shows_only_when_reachable :
+  forall h cl ft be proxy_addr frq,
+  ft_reach ft = false ->
+  snd (client_call true h cl ft be proxy_addr frq) = snd (client_call false h cl ft be proxy_addr frq) /\
+  snd (fst (client_call true h cl ft be proxy_addr frq)) = snd (fst (client_call false h cl ft be proxy_addr frq)).
+Proof. exact reissue_unreachable_same. Qed.
+Print Assumptions C19_reissue_shows_only_when_reachable.
+
+Example C19_redial_example :
+  delivered (mkClient true true) (mkFault CBefore true (SShared idx_conn_closed)) = true /\
+  delivered (mkClient true true) (mkFault CBefore false (SShared idx_conn_closed)) = false /\
+  delivered (mkClient false true) (mkFault CBefore true (SShared idx_conn_closed)) = false /\
+  delivered (mkClient true true) (mkFault CAtWrite true (SShared idx_conn_closed)) = false /\
+  delivered (mkClient true true) (mkFault CDuring true (SShared idx_conn_closed)) = false /\
+  delivered (mkClient true true) (mkFault CAfter false (SShared idx_conn_closed)) = true /\
+  link_after (mkClient true true) (mkFault CAfter false (SShared idx_conn_closed)) = false.
+Proof. repeat split. Qed.
